@@ -190,10 +190,30 @@ func body(w *hx.W) {
 	w.Metric("dp_regexp_agreements", c.agree)
 	w.Sample(map[string]interface{}{"kind": "exhaustive", "names": len(names), "patterns": len(pats), "references": refs, "delimiters": []string{"/", ".", "none"}, "max_len": L,
 		"example": map[string]string{"name": names[len(names)/3], "pattern": pats[len(pats)/2]}})
+	// targeted: names and patterns around "INBOX" in every case (only the wire decoder folds the
+	// mailbox name INBOX; for the matcher every character other than the wildcards matches only itself)
+	inb := []string{"INBOX", "inbox", "Inbox", "InBoX", "INBOXes", "inboxes", "Inbox/sub", "INBOX/sub", "inbox.sub", "inbox-archive", "xInbox", "INBO", "nbox"}
+	inbPats := append(append([]string{}, inb...), "Inbox%", "inbox*", "INBOX%", "*box*", "%nbox", "I*", "i%", "%/sub", "*")
+	ti := 0
+	for _, d := range delims {
+		for _, ref := range []string{"", "Inbox", "INBOX/", "inbox", "x"} {
+			for _, pat := range inbPats {
+				for _, name := range inb {
+					ti++
+					if !w.Mine(ti) {
+						continue
+					}
+					c.one(name, d, ref, pat)
+					w.CaseStr(fmt.Sprintf("inbox\x00%s\x00%c\x00%s\x00%s", name, d, ref, pat))
+				}
+			}
+		}
+	}
+	w.Class("targeted/inbox-case")
 	// random long names / patterns, incl. multi-byte runes and bytes
 	rng := w.Rand("random")
 	n := w.Pick(60000, 2000000)
-	atoms := []string{"a", "b", "ab", "é", "日本", "/", ".", "x", " ", "INBOX", "-", "&"}
+	atoms := []string{"a", "b", "ab", "é", "日本", "/", ".", "x", " ", "INBOX", "-", "&", "inbox", "Inbox", "A", "B"}
 	for i := 0; i < n; i++ {
 		d := delims[rng.Intn(len(delims))]
 		var nb, pb strings.Builder
@@ -250,7 +270,7 @@ func main() {
 		ID:    "C20",
 		Level: "exploration",
 		Rule: "every (name, pattern) over names in {a,b,/,.}^<=L and patterns in {a,b,/,*,%}^<=L, times references {\"\",a,a/,a/b,/,b.,%,a*} and delimiters {'/','.',none} (each tuple distinct by construction), " +
-			"plus random long names/patterns with multi-byte runes (distinct by hash)",
+			"plus a targeted product of names and patterns spelling INBOX in every case, plus random long names/patterns with multi-byte runes and mixed case (distinct by hash)",
 		Assumptions: []string{
 			"reference resolution rule as documented by the last rows of the repository's TestMatchList: a pattern starting with the delimiter is absolute and loses it; otherwise the reference (completed with the delimiter) is a literal prefix; wildcards in the reference are not special",
 			"'%' is defined on bytes: it does not match the (ASCII) delimiter byte; non-ASCII delimiters are outside IMAP's QUOTED-CHAR",
